@@ -1101,10 +1101,13 @@ pub fn run_write_case(scratch: &Scratch, project: &Project, case: &Value) -> Val
     } else {
         json!(null)
     };
-    json!({
+    let reply = json!({
         "export_digest": export_digest,
         "fired": fired, "result": result, "files": files, "durable_problems": durable_problems,
         "table_problems": problems, "literals_checked": n_literals, "baked": baked, "sample": sample,
         "units": units.iter().map(|u| json!({"scope": u.scope, "locales": u.locales.iter().map(|(n, s, _)| json!([n, s.len()])).collect::<Vec<_>>()})).collect::<Vec<_>>(),
-    })
+    });
+    // scratch paths carry the worker's pid (a code-generator refusal quotes the file it read): normalise, as the read case does
+    let text = reply.to_string().replace(&*scratch.root.to_string_lossy(), "<SCRATCH>");
+    serde_json::from_str(&text).unwrap_or(reply)
 }
